@@ -18,6 +18,7 @@ func main() {
 	funcs := flag.String("funcs", "", "comma separated pkgpath::key of functions to verify")
 	out := flag.String("out", "/verif/out/tmp", "output dir for SMT files")
 	timeout := flag.Int("timeout", 10000, "per-query timeout (ms)")
+	stream := flag.Bool("stream", false, "stream model for readers")
 	verbose := flag.Bool("v", false, "verbose")
 	overlay := flag.String("overlay", "", "orig=replacement[,orig=replacement] source overlays (testing)")
 	flag.Parse()
@@ -31,7 +32,7 @@ func main() {
 			ov[kv[0]] = b
 		}
 	}
-	e, err := eng.Load(*repo, strings.Split(*pkgs, ","), eng.Options{Verbose: *verbose, Overlay: ov})
+	e, err := eng.Load(*repo, strings.Split(*pkgs, ","), eng.Options{Verbose: *verbose, Overlay: ov, StreamModel: *stream})
 	if err != nil {
 		fmt.Fprintln(os.Stderr, "load:", err)
 		os.Exit(2)
